@@ -218,6 +218,68 @@ def quadratic_repeat_shape(files):
     return False
 
 
+KNOWN_RING = "ring-mixed-chain-polynomial-slowness"
+
+
+def mixed_ring_shape(files):
+    """structural predicate of the known finding `ring-mixed-chain-polynomial-slowness`: the constant definitions of a file form a
+    graph with a cycle, and at least 12 of them are 'mixed steps': an expression that uses one symbol at least twice and contains
+    a sum or difference at the top with a product among its terms (x*x+x, x*x-x*x+x, ...)."""
+    m = impl.load()
+    T, P, R, O = m["types"], m["parser"], m["reports"], m["operators"]
+    for fn, text in files:
+        try:
+            with R.handle_reports(lambda *a: None):
+                tree = P.parse(fn, text)
+        except BaseException:
+            continue
+        uses, mixed = {}, 0
+        for st in tree.body.insns:
+            if not (isinstance(st, T.Assignment) and isinstance(st.target, T.Symbol)):
+                continue
+            syms, ops, stack = {}, set(), [st.value]
+            while stack:
+                t = stack.pop()
+                if isinstance(t, T.Symbol):
+                    syms[t.name.lower()] = syms.get(t.name.lower(), 0) + 1
+                if isinstance(t, O.InfixOperator):
+                    ops.add(type(t).__name__)
+                for k in ("lhs", "rhs", "operand", "expr"):
+                    v = getattr(t, "__dict__", {}).get(k)
+                    if v is not None:
+                        stack.append(v)
+            uses[st.target.name.lower()] = set(syms)
+            top = st.value
+            while isinstance(top, T.ParenthesizedExpression):
+                top = top.expr
+            # a SUM at the top with a product of the symbol among its terms (x*x+x, x*x-x*x+x); a product of sums such as
+            # (x+1)*(x-1) is not this shape (it is fast since 2b465cd)
+            if syms and max(syms.values()) >= 2 and "mul" in ops and type(top).__name__ in ("add", "sub"):
+                mixed += 1
+        if mixed < 12:
+            continue
+        # cycle in the definition graph (iterative colouring)
+        colour = {}
+        for start in uses:
+            if start in colour:
+                continue
+            stack = [(start, iter(sorted(uses.get(start, ()))))]
+            colour[start] = 1
+            while stack:
+                node, it = stack[-1]
+                nxt = next(it, None)
+                if nxt is None:
+                    colour[node] = 2
+                    stack.pop()
+                elif nxt in uses:
+                    if colour.get(nxt) == 1:
+                        return True
+                    if nxt not in colour:
+                        colour[nxt] = 1
+                        stack.append((nxt, iter(sorted(uses.get(nxt, ())))))
+    return False
+
+
 def sig_of(kind, crash):
     return f"{kind}:{crash.get('exc')}@{crash.get('frame')}"
 
@@ -368,7 +430,9 @@ def judge(case, watchdog=None, cli=True):
     exp = case.get("expect")
     if exp and r["outcome"] in ("ok", "failed"):
         # inputs whose outcome is known by construction (corpus entries, rings that must be rejected, alias chains that must assemble)
-        if r["outcome"] != exp.get("outcome") or (exp.get("diag") and exp["diag"] not in res["diag_ids"]):
+        want = exp.get("diag")
+        want = [want] if isinstance(want, str) else (want or [])
+        if r["outcome"] != exp.get("outcome") or (want and not any(w in res["diag_ids"] for w in want)):
             V.append({"signature": "unexpected-outcome", "what": f"an input whose outcome is known by construction ({exp}) ended differently",
                       "detail": {"outcome": r["outcome"], "diags": [d[:2] for d in r["diags"]][:6]}})
     if r["outcome"] not in ("ok", "failed"):
@@ -423,6 +487,13 @@ def judge(case, watchdog=None, cli=True):
                 v["detail"] = {"was": v["signature"], **(v.get("detail") or {})}
                 v["signature"] = KNOWN_QUADRATIC
                 v["what"] = "a '.repeat' of >= 1000 address-dependent statements before the link base is known: quadratic time and memory (known finding)"
+        elif mixed_ring_shape(files):
+            for v in slow:
+                if "MemoryError" in v["signature"]:
+                    continue
+                v["detail"] = {"was": v["signature"], **(v.get("detail") or {})}
+                v["signature"] = KNOWN_RING
+                v["what"] = "a ring of definitions through >= 12 steps that mix a product and a sum of the same symbol: reported, but only after polynomial (~N^3.5-4) time (known finding)"
     return res
 
 
@@ -538,6 +609,21 @@ def quadratic_witness():
         out[n] = min(out.get(n, 1e9), dt)
         out["outcome"] = r["outcome"]
     out["ratio"] = out[1600] / max(out[400], 1e-6)
+    return out
+
+
+def ring_witness():
+    """cheap witness of the second known finding: t(ring of 24 steps 'x*x-x*x+x') / t(ring of 12 such steps), measured in one worker"""
+    _install()
+    out = {}
+    for n in (12, 12, 24):
+        _reset()
+        text = "\n".join([f".word x{n}"] + [f"x{i} = x{i - 1}*x{i - 1}-x{i - 1}*x{i - 1}+x{i - 1}" for i in range(n, 0, -1)] + [f"x0 = x{n - 3} + 1"]) + "\n"
+        t0 = time.time()
+        r = impl.assemble([(f"{ROOT}/r.mac", text)], watchdog=120)
+        out[n] = min(out.get(n, 1e9), time.time() - t0)
+        out["outcome"] = r["outcome"]
+    out["ratio"] = out[24] / max(out[12], 1e-6)
     return out
 
 
